@@ -7,6 +7,7 @@ ADDRS = ['tz1VSUr8wwNhLAzempoch5d6hLRiTh8Cjcjb', 'KT1BEqzn5Wx8uJrZNvuS9DVHmLvG9t
          'tz2TSvNTh2epDMhZHrw73nV9piBX7kLZ9K9m', 'KT18amZmM5W7qDWVt2pH6uj7sCEd3kbzLrHT']
 CHAINS = ['NetXdQprcVkpaWU', 'NetXynUjJNZm7wi', 'NetXSgo1ZT2DRUG']
 SIMPLE = [('unit',), ('bool',), ('int',), ('nat',), ('mutez',), ('timestamp',), ('string',), ('bytes',), ('address',), ('chain_id',)]
+SET_ELT = [('int',), ('nat',), ('string',), ('bytes',), ('bool',), ('mutez',), ('timestamp',)]
 COMPARABLE = [('int',), ('nat',), ('string',), ('bytes',), ('bool',), ('mutez',), ('timestamp',)]
 
 
@@ -87,6 +88,8 @@ class Gen:
             return ('map', self.gen_key_type(), self.gen_type(depth - 1))
         if k == 5 and depth >= 2:
             return ('lambda', self.gen_type(depth - 2), self.gen_type(depth - 2))
+        if k == 6:
+            return ('set', r.choice(SET_ELT))
         return r.choice(SIMPLE)
 
     KEY_LEAVES = [('int',), ('nat',), ('string',), ('bytes',)]
@@ -151,6 +154,8 @@ class Gen:
             return {'prim': 'Pair', 'args': [self.gen_value(t[1], depth - 1), self.gen_value(t[2], depth - 1)]}
         if p == 'list':
             return [self.gen_value(t[1], depth - 1) for _ in range(r.choice([0, 0, 1, 2, 3]))]
+        if p == 'set':
+            return self.distinct_sorted_keys(t[1], r.choice([0, 0, 1, 2, 3, 5]))
         if p == 'map':
             keys = self.distinct_sorted_keys(t[1], r.choice([0, 0, 1, 2, 3]))
             return [{'prim': 'Elt', 'args': [k, self.gen_value(t[2], depth - 1)]} for k in keys]
@@ -162,8 +167,11 @@ class Gen:
         """(sort key, Micheline) of a random value of comparable type kt; sort keys order like Michelson COMPARE"""
         r = self.rng
         p = kt[0]
-        if p in ('int', 'nat'):
+        if p in ('int', 'nat', 'timestamp'):
             v = self.gen_int(nat=p == 'nat', small=r.random() < 0.7)
+            return v, {'int': str(v)}
+        if p == 'mutez':
+            v = r.choice([0, 1, 2, 3, 5, 10**6, 2**62, 2**63 - 1])
             return v, {'int': str(v)}
         if p == 'string':
             v = ''.join(r.choice('abc') for _ in range(r.randrange(0, 4)))
@@ -204,7 +212,7 @@ class Gen:
         table = {
             'unit': {'prim': 'Unit'}, 'bool': {'prim': 'False'}, 'int': {'int': '0'}, 'nat': {'int': '0'}, 'mutez': {'int': '0'},
             'timestamp': {'int': '0'}, 'string': {'string': ''}, 'bytes': {'bytes': ''}, 'address': {'string': ADDRS[0]},
-            'chain_id': {'string': CHAINS[0]}, 'option': {'prim': 'None'}, 'list': [], 'map': [],
+            'chain_id': {'string': CHAINS[0]}, 'option': {'prim': 'None'}, 'list': [], 'map': [], 'set': [],
         }
         if p in table:
             return table[p]
@@ -281,6 +289,8 @@ class Gen:
         add(1, 'ENV', lambda: self._env(st))
         add(2, 'COMB', lambda: self._comb_idiom(st))
         add(3, 'ARITH', lambda: self._arith_idiom(st))
+        add(4, 'COLL', lambda: self._coll_idiom(st, depth))
+        add(0.5, 'EMPTY_SET', lambda: self._empty_set(st))
         if depth > 0:
             add(1, 'LAMBDA', lambda: self._lambda(st, depth))
         res = None
@@ -326,6 +336,10 @@ class Gen:
                     add(5, 'MAP', lambda: self._map(st, top, top[1], depth))
                 if top[1][0] in ('string', 'bytes'):
                     add(3, 'CONCAT', lambda: ([{'prim': 'CONCAT'}], [top[1]] + st[1:]))
+            if top[0] == 'set':
+                add(2, 'SIZE', lambda: ([{'prim': 'SIZE'}], [('nat',)] + st[1:]))
+                if depth > 0:
+                    add(4, 'ITER', lambda: self._iter(st, top[1], depth))
             if top[0] == 'map':
                 add(2, 'SIZE', lambda: ([{'prim': 'SIZE'}], [('nat',)] + st[1:]))
                 if depth > 0:
@@ -348,6 +362,17 @@ class Gen:
             if top[0] == 'bool' and snd[0] == 'bool':
                 op = r.choice(['AND', 'OR', 'XOR'])
                 add(3, 'AND..', lambda: ([{'prim': op}], [('bool',)] + st[2:]))
+            if snd[0] in ('set', 'map') and snd[1] == top and top in SET_ELT:
+                add(6, 'MEM', lambda: ([{'prim': 'MEM'}], [('bool',)] + st[2:]))
+                if snd[0] == 'map':
+                    add(6, 'GET', lambda: ([{'prim': 'GET'}], [('option', snd[2])] + st[2:]))
+            if len(st) >= 3 and top in SET_ELT:
+                third = st[2]
+                if third[0] == 'set' and third[1] == top and snd == ('bool',):
+                    add(8, 'UPDATE', lambda: ([{'prim': 'UPDATE'}], st[2:]))
+                if third[0] == 'map' and third[1] == top and snd == ('option', third[2]):
+                    add(8, 'UPDATE', lambda: ([{'prim': 'UPDATE'}], st[2:]))
+                    add(8, 'GET_AND_UPDATE', lambda: ([{'prim': 'GET_AND_UPDATE'}], [snd] + st[2:]))
             if (top[0], snd[0]) in EDIV_T:
                 add(4, 'EDIV', lambda: ([{'prim': 'EDIV'}], [('option', ('pair', *[(x,) for x in EDIV_T[(top[0], snd[0])]]))] + st[2:]))
             if (top[0], snd[0]) in AND_T:
@@ -485,6 +510,98 @@ class Gen:
             t2, v2 = self.flat_comb(ty['args'][1], v['args'][1])
             return ({'prim': 'pair', 'args': [ty['args'][0]] + t2['args']}, {'prim': 'Pair', 'args': [v['args'][0]] + v2['args']})
         return ty, v
+
+    # ---- sets and maps: literals / histories with keys at chosen positions ----------------------------------
+    def _empty_set(self, st):
+        t = self.rng.choice(SET_ELT)
+        return [{'prim': 'EMPTY_SET', 'args': [ty_mich(t)]}], [('set', t)] + st
+
+    def _keys_and_probe(self, kt):
+        """(keys of the collection, probe key, description of where the probe falls)"""
+        r = self.rng
+        n = r.choice([0, 0, 1, 1, 2, 3, 3, 5])
+        pool = self.distinct_sorted_keys(kt, n + 1)
+        if len(pool) <= 1 or r.random() < 0.45:      # probe present (if there is anything to find)
+            keys = pool[:n] if len(pool) > n else pool
+            if not keys:
+                return keys, pool[0] if pool else self.gen_key(kt)[1], 'empty collection'
+            i = r.choice([0, len(keys) - 1, r.randrange(len(keys))])
+            where = 'singleton, present' if len(keys) == 1 else ('present first' if i == 0 else ('present last' if i == len(keys) - 1 else 'present middle'))
+            return keys, keys[i], where
+        i = r.choice([0, len(pool) - 1, r.randrange(len(pool))])
+        keys = pool[:i] + pool[i + 1:]
+        where = 'absent below all' if i == 0 else ('absent above all' if i == len(pool) - 1 else 'absent between')
+        if len(keys) == 1:
+            where = 'singleton, ' + where
+        return keys, pool[i], where
+
+    def _coll_idiom(self, st, depth):
+        r = self.rng
+        P = lambda prim, *args: {'prim': prim, 'args': list(args)} if args else {'prim': prim}
+        kt = r.choice(SET_ELT)
+        keys, probe, where = self._keys_and_probe(kt)
+        is_set = r.random() < 0.45
+        if is_set:
+            ct = ('set', kt)
+            lit = keys
+        else:
+            vt = self.gen_type(1)
+            ct = ('map', kt, vt)
+            lit = [{'prim': 'Elt', 'args': [k, self.gen_value(vt, 1)]} for k in keys]
+        if r.random() < 0.3:
+            # build it by insertions in a random order (`sorted([item] + items)` / `sorted(items + [(key, val)])`)
+            order = list(range(len(keys)))
+            r.shuffle(order)
+            code = [P('EMPTY_SET', ty_mich(kt)) if is_set else P('EMPTY_MAP', ty_mich(kt), ty_mich(vt))]
+            for j in order:
+                if is_set:
+                    code += [P('PUSH', P('bool'), P('True')), P('PUSH', ty_mich(kt), keys[j]), P('UPDATE')]
+                else:
+                    code += [P('PUSH', ty_mich(('option', vt)), P('Some', lit[j]['args'][1])), P('PUSH', ty_mich(kt), keys[j]), P('UPDATE')]
+            self.note('EMPTY_SET' if is_set else 'EMPTY_MAP')
+            self.shape(f'{ct[0]} built by {len(keys)} insertions')
+        else:
+            code = [P('PUSH', ty_mich(ct), lit)]
+        self.shape(f'{ct[0]} size {len(keys) if len(keys) < 4 else "4+"}')
+        pk = P('PUSH', ty_mich(kt), probe)
+        ops = ['MEM', 'UPDATE+', 'UPDATE-', 'SIZE', 'ITER', 'UPDATE;MEM'] if is_set else \
+              ['MEM', 'GET', 'UPDATE+', 'UPDATE-', 'GET_AND_UPDATE+', 'GET_AND_UPDATE-', 'SIZE', 'ITER', 'UPDATE;GET']
+        op = r.choice(ops)
+        self.shape(f'{ct[0]} {op}: {where}')
+        new = [ct] + st
+        if op == 'MEM':
+            self.note('MEM')
+            return code + [pk, P('MEM')], [('bool',)] + st
+        if op == 'GET':
+            self.note('GET')
+            return code + [pk, P('GET')], [('option', vt)] + st
+        if op == 'SIZE':
+            return code + [P('SIZE')], [('nat',)] + st
+        if op == 'ITER':
+            elt = kt if is_set else ('pair', kt, vt)
+            if depth <= 0:
+                return code, new
+            c, st2 = self._iter(new, elt, depth)
+            return code + c, st2
+        if is_set:
+            add = op != 'UPDATE-' if op != 'UPDATE;MEM' else r.random() < 0.5
+            upd = [P('PUSH', P('bool'), P('True' if add else 'False')), pk, P('UPDATE')]
+            self.note('UPDATE')
+            if op == 'UPDATE;MEM':
+                self.note('MEM')
+                return code + upd + [P('DUP'), pk, P('MEM')], [('bool',), ct] + st
+            return code + upd, new
+        some = op.endswith('+') if op != 'UPDATE;GET' else r.random() < 0.5
+        ov = P('Some', self.gen_value(vt, 1)) if some else P('None')
+        arg = [P('PUSH', ty_mich(('option', vt)), ov), pk]
+        if op.startswith('GET_AND_UPDATE'):
+            self.note('GET_AND_UPDATE')
+            return code + arg + [P('GET_AND_UPDATE')], [('option', vt), ct] + st
+        self.note('UPDATE')
+        if op == 'UPDATE;GET':
+            self.note('GET')
+            return code + arg + [P('UPDATE'), P('DUP'), pk, P('GET')], [('option', vt), ct] + st
+        return code + arg + [P('UPDATE')], new
 
     # ---- arithmetic: operands pushed on purpose so that every operand class and edge is reached --------------
     def _arith_idiom(self, st):
@@ -676,6 +793,8 @@ MUL_T = {('nat', 'nat'): 'nat', ('nat', 'int'): 'int', ('int', 'nat'): 'int', ('
 
 def well_typed_edge(code):
     """is the last instruction of an edge-stream program (PUSH…; <comb instruction n>) inside its typing rule?"""
+    if not (code[-1].get('args') and isinstance(code[-1]['args'][0], dict) and 'int' in code[-1]['args'][0]):
+        return False      # the ill-formed literal programs
     types = [ty_from_mich(c['args'][0]) if c['prim'] == 'PUSH' else ('unit',) for c in code[:-1]][::-1]
     types = [binarize_ty(t) for t in types]
     last, n = code[-1]['prim'], int(code[-1]['args'][0]['int'])
